@@ -561,6 +561,9 @@ class BasePort(logging_utils.LoggableMixin, metaclass=abc.ABCMeta):
 
             raise
 
+        # The expressions of other ports may depend on this port being enabled (e.g. AVAILABLE($id), DEFAULT($id, ...))
+        main.force_eval_expressions()
+
     async def handle_enable(self) -> None:
         pass
 
